@@ -113,6 +113,12 @@ def table_specs(tier, seed):
                 specs.append({'prod': 'H', 'shape': list(shape), 'mask': FIXED[shape][0], 'rot': rot,
                               'pool': 'hard', 'obs_md': 'text', 'samp_md': 'text', 'header': hd, 'gen': g,
                               'type': vocab[(g + hd + seed) % len(vocab)]})
+    # T: every table type incl. an absent one ("type": null in the JSON text), no table id, no metadata
+    for shape in tier_shapes(tier):
+        for ty in D.TYPES:
+            for md in ('none', 'text'):
+                specs.append({'prod': 'T', 'shape': list(shape), 'mask': FIXED[shape][0], 'rot': rot,
+                              'pool': 'hard', 'obs_md': md, 'samp_md': md, 'header': 0, 'type': ty})
     kinds = D.MD_KINDS
     for shape in tier_shapes(tier):
         mask = FIXED[shape][0]
